@@ -274,12 +274,14 @@ def nt_dec_fault(c):
 
 def dec_streams(tier, seed, path):
     n = 40 if tier == 'quick' else 1500
-    return dec_gen.write(path, dec_gen.streams(seed, n, 's', big=(tier != 'quick')))
+    return dec_gen.write(path, list(dec_gen.streams(seed, n, 's', big=(tier != 'quick'))) +
+                         list(dec_gen.encoder_streams(seed + 3, n, 'e')))
 
 
 def dec_faults(tier, seed, path):
     n = 60 if tier == 'quick' else 3000
-    return dec_gen.write(path, dec_gen.streams(seed + 7, n, 'f', faults=True, big=False))
+    return dec_gen.write(path, list(dec_gen.streams(seed + 7, n, 'f', faults=True, big=False)) +
+                         list(dec_gen.encoder_streams(seed + 8, n, 'g', faults=True)))
 
 
 def dec_anyhist(tier, seed, path):
